@@ -15,8 +15,9 @@ CFG = {
                  "length 1..3 over two block names with one layout per level from a fixed menu (see extra.exhaustive_space). Oracles on the "
                  "implementation, every set: same outcome for every batch order (all permutations up to 4 templates), for fresh instances "
                  "(new HashMap seeds) and for every parent-before-child incremental order; no panic; output made of marker tokens only. "
-                 "Sets whose block nesting is cyclic through the chain (D13 class) render in a child process and are compared as CDiverge "
-                 "with the model's out-of-fuel outcome.",
+                 "`{% include \"T\" %}` renders what render(T) renders (D9). Sets whose block nesting is cyclic through the chain (D13 class) are "
+                 "rejected by finalize's find_block_cycle, which the model ports; should one be accepted it renders in a child process and "
+                 "is compared as CDiverge with the model's out-of-fuel outcome.",
     "trusted_base": TB_COMMON + [
         "axioms: none (every C04 theorem is 'Closed under the global context')",
         "abstraction: templates are trees of Text / BlockDef / Super / FilterSection; `{{ super() }}` is the only use of super(); "
@@ -26,11 +27,12 @@ CFG = {
     ],
     "modelled": ["parsing/parser.rs 1513-1548 duplicate block names; parsing/compiler.rs 421-441 compile_block, 487-520 block set, 613-630 filter section",
                  "template.rs 184-210 find_parents",
-                 "tera.rs 579-726 finalize_templates: parents, orphan-block check, own lineage, inherit pass; 1310-1326 render_block",
+                 "tera.rs 579-745 finalize_templates: parents, orphan-block check, own lineage, inherit pass, block-cycle check; template.rs 186-245 find_block_cycle; tera.rs render_block",
                  "vm/interpreter.rs WriteText, Capture/EndCapture, RenderBlock (capture_block/block_buffer), CallFunction super, render_to"],
     "assumptions": ["template names resolve to themselves (no prefix configuration)",
                     "render theorems exclude the out-of-fuel outcome by carrying the same fuel on both sides (model fuel = spec fuel); "
-                    "termination for acyclic block nesting is stated separately",
+                    "accepted => the render terminates is not proved (finalize's block-cycle check is ported and its verdict proved order-independent, its completeness as a termination criterion is not); "
+                    "the ported find_block_cycle walk is fuelled with (number of (block, level) nodes + 2); out-of-fuel / bad-index outcomes are explicit and never met by the correspondence run",
                     "implementation == model only on the sets enumerated by the harness"],
 }
 
@@ -40,7 +42,7 @@ MANIFEST = (
     "Theorems (Props/C04.v) over the Gallina port of find_parents, the two lineage passes and the VM's RenderBlock/super()/capture_block logic: lineage "
     "equals the specified one for every chain and every iteration order of the maps involved, the model render equals the recursive specification "
     "for chains of any length and any nesting (same fuel on both sides, so also for divergent sets), finalize rejects exactly orphan top-level child "
-    "blocks, a finite render never activates a block inside itself, and single-block rendering returns exactly the text the block writes in the full render ("" if never reached, same error if the render fails). The port is tied to the code by running "
+    "blocks (finalize's later block-cycle check is ported, and its verdict proved independent of the iteration orders), a finite render never activates a block inside itself, and single-block rendering returns exactly the text the block writes in the full render ("" if never reached, same error if the render fails). The port is tied to the code by running "
     "both on generated template sets (exhaustive small chains, sampled longer ones, random forests) inside coqc.",
     "§6 C04",
 )
